@@ -243,9 +243,32 @@ impl RepositoryExtended for gix::Repository {
             || (commit_encoding.is_some() && commit_encoding != Some(encoding_rs::UTF_8))
         {
             // Use git for any commit that needs to be signed
+            // With a commit encoding other than UTF-8, the names and e-mail addresses
+            // are part of the encoded commit just like the message.
+            let encode_signature =
+                |sig: gix::actor::SignatureRef<'_>| -> Result<gix::actor::Signature> {
+                    let mut sig = sig.to_owned();
+                    if let Some(encoding) = commit_encoding.filter(|e| *e != encoding_rs::UTF_8) {
+                        for field in [&mut sig.name, &mut sig.email] {
+                            if let Ok(text) = std::str::from_utf8(field.as_slice()) {
+                                let (encoded, _, any_replacements) = encoding.encode(text);
+                                if any_replacements {
+                                    return Err(anyhow!(
+                                        "failed to encode `{text}` with `{}`",
+                                        encoding.name(),
+                                    ));
+                                }
+                                *field = encoded.as_ref().into();
+                            }
+                        }
+                    }
+                    Ok(sig)
+                };
+            let author = encode_signature(author)?;
+            let committer = encode_signature(committer)?;
             self.stupid().commit_tree(
-                author,
-                committer,
+                &author,
+                &committer,
                 &message.encode_with(commit_encoding)?,
                 tree_id,
                 parent_ids,
